@@ -422,25 +422,25 @@ func RunMaster(c Check, tier string, seed uint64, workers int, b Budget, extraEn
 		}
 	}
 	cov := map[string]interface{}{
-		"evaluations":         total.Evaluations,
-		"distinct_nontrivial": len(sigs),
-		"rule":                c.Rule(),
-		"samples":             samples,
-		"simulated_runs":      total.Runs,
-		"nontrivial_runs":     total.NonTrivial,
-		"logical_steps":       total.Steps,
-		"simulated_time":      "no clock or timer exists in pkg/ggql; coverage is reported as logical steps (scheduling points / operations / fault sites)",
-		"runs_per_hour":       int(float64(total.Runs) / wall * 3600),
-		"seeds_per_hour":      int(float64(total.Runs) / wall * 3600),
-		"faults_fired":        faults,
-		"probes":              probes,
-		"counters":            other,
-		"inconclusive":        total.Inconclusive,
-		"components":          c.Components(),
-		"known_findings":      knownOut,
+		"evaluations":               total.Evaluations,
+		"distinct_nontrivial":       len(sigs),
+		"rule":                      c.Rule(),
+		"samples":                   samples,
+		"simulated_runs":            total.Runs,
+		"nontrivial_runs":           total.NonTrivial,
+		"logical_steps":             total.Steps,
+		"simulated_time":            "no clock or timer exists in pkg/ggql; coverage is reported as logical steps (scheduling points / operations / fault sites)",
+		"runs_per_hour":             int(float64(total.Runs) / wall * 3600),
+		"seeds_per_hour":            int(float64(total.Runs) / wall * 3600),
+		"faults_fired":              faults,
+		"probes":                    probes,
+		"counters":                  other,
+		"inconclusive":              total.Inconclusive,
+		"components":                c.Components(),
+		"known_findings":            knownOut,
 		"determinism_selftest_runs": total.SelfTestRuns,
-		"workers":             workers,
-		"exhaustive":          false,
+		"workers":                   workers,
+		"exhaustive":                false,
 	}
 	for k, v := range buildInfo {
 		cov[k] = v
